@@ -170,7 +170,7 @@ Proof.
     + apply conforms_fits. exact K2.
   - destruct (crun_sound _ _ _ _ _ _ _ _ Hk Hcr) as [R1 R2]. split; auto.
     unfold step. apply in_or_app. right. apply in_or_app. right. rewrite Hres, Hhp.
-    apply in_or_app. right. rewrite <- Hc. exact R1.
+    apply in_or_app. right. apply in_or_app. right. rewrite <- Hc. exact R1.
 Qed.
 
 Definition closed (S : list cfg) : Prop := forall c c', In c S -> In (SCfg c') (step T g c) -> In c' S.
@@ -202,27 +202,37 @@ Proof. intros A f l1 l2 H. rewrite existsb_app in H. apply orb_false_iff in H. e
 Lemma clean_node_ok : forall c t, cfg_clean T g c = true -> node_ok T g c t = true.
 Proof.
   intros c t H. unfold cfg_clean, cfg_has in H.
+  apply andb_true_iff in H. destruct H as [H HO].
   apply andb_true_iff in H. destruct H as [H HB]. apply andb_true_iff in H. destruct H as [H HE].
   apply andb_true_iff in H. destruct H as [HP HC].
-  apply negb_true_iff in HP, HC, HE, HB.
-  unfold step in HP, HC, HE, HB. unfold node_ok.
+  apply negb_true_iff in HP, HC, HE, HB, HO.
+  unfold step in HP, HC, HE, HB, HO. unfold node_ok.
   apply existsb_app_false in HP. destruct HP as [_ HP]. apply existsb_app_false in HP. destruct HP as [_ HP].
   apply existsb_app_false in HC. destruct HC as [_ HC]. apply existsb_app_false in HC. destruct HC as [_ HC].
   apply existsb_app_false in HE. destruct HE as [_ HE]. apply existsb_app_false in HE. destruct HE as [_ HE].
   apply existsb_app_false in HB. destruct HB as [_ HB]. apply existsb_app_false in HB. destruct HB as [_ HB].
+  apply existsb_app_false in HO. destruct HO as [_ HO]. apply existsb_app_false in HO. destruct HO as [_ HO].
   destruct (resolve T (mro_of T (c_cls c)) (Some (c_f c))) as [f m| |].
   2:{ cbv in HP. discriminate. }
   2:{ cbv in HB. discriminate. }
-  cbv beta iota in HP, HC, HE, HB. cbv beta iota.
+  cbv beta iota in HP, HC, HE, HB, HO. cbv beta iota.
   destruct (has_print T (fcls f) m) as [ow|].
   2:{ cbv in HB. discriminate. }
-  cbv beta iota in HP, HC, HE, HB. cbv beta iota.
-  apply existsb_app_false in HC. destruct HC as [_ HC].
+  cbv beta iota in HP, HC, HE, HB, HO. cbv beta iota.
+  apply existsb_app_false in HC. destruct HC as [_ HC]. apply existsb_app_false in HC. destruct HC as [_ HC].
   apply existsb_app_false in HE. destruct HE as [HE _].
-  apply existsb_app_false in HB. destruct HB as [_ HB].
-  rewrite HC, HB. destruct (emit_ok T ow m (c_cls c)).
-  - reflexivity.
-  - cbv in HE. discriminate.
+  apply existsb_app_false in HO. destruct HO as [_ HO]. apply existsb_app_false in HO. destruct HO as [HO _].
+  apply existsb_app_false in HB. destruct HB as [_ HB]. apply existsb_app_false in HB. destruct HB as [_ HB].
+  rewrite HC, HB.
+  assert (EK : emit_kf_ok T ow m (c_cls c) = true).
+  { destruct (emit_kf_ok T ow m (c_cls c)); [reflexivity|cbv in HE; discriminate]. }
+  assert (EO : emit_other_ok T ow m (c_cls c) = true).
+  { destruct (emit_other_ok T ow m (c_cls c)); [reflexivity|cbv in HO; discriminate]. }
+  assert (EA : emit_ok T ow m (c_cls c) = true).
+  { unfold emit_ok, emit_kf_ok, emit_other_ok in *. rewrite forallb_forall in *. intros kb Hkb.
+    specialize (EK kb Hkb). specialize (EO kb Hkb).
+    destruct (snd kb); auto. destruct (kf_kind (fst kb)); simpl in *; discriminate. }
+  rewrite EA. reflexivity.
 Qed.
 
 (* a configuration without `no printer` / stuck markers resolves to a print method *)
@@ -251,9 +261,10 @@ Proof. reflexivity. Qed.
 (* a member of a set free of the two known-finding markers, itself free of the other two, is clean *)
 Lemma clean_from_set : forall S c, In c S ->
   existsb (cfg_has T g SNoCopy) S = false -> existsb (cfg_has T g SEmit) S = false ->
-  cfg_has T g SNoPrinter c = false -> cfg_has T g SBad c = false -> cfg_clean T g c = true.
+  cfg_has T g SNoPrinter c = false -> cfg_has T g SBad c = false -> cfg_has T g SEmitOther c = false ->
+  cfg_clean T g c = true.
 Proof.
-  intros S c Hin K1 K2 N1 N2. unfold cfg_clean. rewrite N1, N2.
+  intros S c Hin K1 K2 N1 N2 N3. unfold cfg_clean. rewrite N1, N2, N3.
   assert (A1 : cfg_has T g SNoCopy c = false).
   { destruct (cfg_has T g SNoCopy c) eqn:E; auto.
     assert (X : existsb (cfg_has T g SNoCopy) S = true) by (apply existsb_exists; exists c; auto). congruence. }
@@ -319,7 +330,8 @@ Definition combo_ok (g : gram) (r : string) (m : omode) : bool :=
   forallb (fun c =>
     let st := step TB g c in
     forallb (fun c' => memcfg c' S) (cfgs_of st) &&
-    negb (existsb (is_err SNoPrinter) st) && negb (existsb (is_err SBad) st)) S.
+    negb (existsb (is_err SNoPrinter) st) && negb (existsb (is_err SBad) st) &&
+    negb (existsb (is_err SEmitOther) st)) S.
 
 Lemma all_combos_ok_true :
   forallb (fun i => forallb (fun r => forallb (fun m => combo_ok (grammar TB i) r m) out_modes) rep_roots) rep_its = true.
@@ -357,7 +369,8 @@ Qed.
 Lemma combo_facts : forall g r m, combo_ok g r m = true ->
   let S := reach TB g r m in
   (forall c, In c (entries TB g r m) -> In c S) /\ closed TB g S /\
-  (forall c, In c S -> cfg_has TB g SNoPrinter c = false /\ cfg_has TB g SBad c = false).
+  (forall c, In c S -> cfg_has TB g SNoPrinter c = false /\ cfg_has TB g SBad c = false /\
+                       cfg_has TB g SEmitOther c = false).
 Proof.
   intros g r m H S. unfold combo_ok in H. fold S in H. apply andb_true_iff in H. destruct H as [He Ha].
   rewrite forallb_forall in Ha. repeat split.
@@ -365,6 +378,8 @@ Proof.
   - intros c c' Hc Hs. specialize (Ha c Hc). cbv zeta in Ha.
     repeat (apply andb_true_iff in Ha; destruct Ha as [Ha ?]).
     rewrite forallb_forall in Ha. apply memcfg_In. apply Ha. apply in_cfgs_of. exact Hs.
+  - specialize (Ha c H). cbv zeta in Ha. repeat (apply andb_true_iff in Ha; destruct Ha as [Ha ?]).
+    apply negb_true_iff in H2. exact H2.
   - specialize (Ha c H). cbv zeta in Ha. repeat (apply andb_true_iff in Ha; destruct Ha as [Ha ?]).
     apply negb_true_iff in H1. exact H1.
   - specialize (Ha c H). cbv zeta in Ha. repeat (apply andb_true_iff in Ha; destruct Ha as [Ha ?]).
@@ -401,7 +416,7 @@ Theorem C13_dispatch_total : forall it of m t c x,
 Proof.
   intros it of m t c x Hi Ho Hr. destruct (C13_cover _ _ _ _ _ _ Hi Ho Hr) as [Hin _].
   destruct (combo_facts _ _ _ (combo_ok_all it of m Hi Ho)) as [_ [_ F3]].
-  destruct (F3 c Hin) as [N1 N2]. apply (clean_resolved TB (grammar TB it) c N1 N2).
+  destruct (F3 c Hin) as [N1 [N2 _]]. apply (clean_resolved TB (grammar TB it) c N1 N2).
 Qed.
 
 (* the property, outside the two classes of configurations the model itself delimits *)
@@ -413,9 +428,9 @@ Theorem C13_partial : forall it of m,
 Proof.
   intros it of m Hi Ho K1 K2 t c x Hr. destruct (C13_cover _ _ _ _ _ _ Hi Ho Hr) as [Hin _].
   destruct (combo_facts _ _ _ (combo_ok_all it of m Hi Ho)) as [_ [_ F3]].
-  destruct (F3 c Hin) as [N1 N2]. apply clean_node_ok.
+  destruct (F3 c Hin) as [N1 [N2 N3]]. apply clean_node_ok.
   rewrite kf_reparent_cfg_eq in K1. rewrite kf_emit_cfg_eq in K2.
-  exact (clean_from_set TB (grammar TB it) _ c Hin K1 K2 N1 N2).
+  exact (clean_from_set TB (grammar TB it) _ c Hin K1 K2 N1 N2 N3).
 Qed.
 
 (* -e prints str(edit) only: no formatter is involved at all *)
